@@ -31,6 +31,9 @@ def _build_model(kind):
     if kind in ("rules", "both"):
         rules = [("assignment", {"equation": "B = 2*A"}, "start"),
                  ("assignment", {"equation": "C = A + B + 1"}, "repeat")]
+    if kind == "dtrules":
+        rules = [("assignment", {"equation": "B = 2*A"}, "dt"),
+                 ("assignment", {"equation": "C = A + B + 1"}, "repeat")]
     ic = {"A": 0, "B": 0, "C": 0} if kind == "inert" else {"A": 3, "B": 1, "C": 0}
     if kind == "inert":
         rxns.append((["A"], [], "massaction", {"k": 0.4}, "fixed", [], ["B"], {"delay": 0.7}))
